@@ -8,7 +8,41 @@ TRANSLATOR = "verif-extract (go/ast + go/types translator /repo -> Cql/Gen/*.lea
 HARNESS = "verif-harness correspondence run (differential, sampled; never a substitute for a theorem)"
 
 PROPS = {
+    "C18": {
+        "gens": ["effects"],
+        "race": True,
+        "lean_targets": ["Cql.Props.C18"],
+        "trusted_base": COMMON_TRUST + [TRANSLATOR + " (effects.go: SSA-based, conservative write/read sets and class-hierarchy call graph of every "
+            "function of primitive, datatype, message, frame, segment, crc, datacodec, compression/lz4, compression/snappy)", HARNESS,
+            "the effect analysis is sound for the constructs it accepts: stores, map updates, channel sends, copy/append/delete/clear, and pointers "
+            "into shared memory handed to functions outside the module count as writes; results of calls are treated as fresh values; a short "
+            "list of external functions is trusted to be read-only in the argument concerned (fmt/errors/bytes constructors, hash/crc32 with its "
+            "table, time.Date, math/big operands other than the receiver)",
+            "Go race detector (stress runs only; supports the model, proves nothing)"],
+        "assumptions": [
+            "a codec call is atomic with respect to the shared state it READS (the shared state is immutable after initialisation, which is what "
+            "the per-run theorems establish), so interleavings of calls are the only interleavings that matter",
+            "third-party code (pierrec/lz4 incl. its sync.Pool, golang/snappy, math/big, zerolog, the Go runtime and standard library) is thread-safe",
+            "configuration operations (constructors, SetBodyCompressor) are not run concurrently with codec calls; they are excluded and reported",
+            "each goroutine works on its own frames, buffers and values (the property's premise)",
+        ],
+    },
+    "C17": {
+        "gens": ["deepcopy"],
+        "lean_targets": ["Cql.Props.C17"],
+        "trusted_base": COMMON_TRUST + [TRANSLATOR + " (field shapes of every struct type with a DeepCopyInto method from go/types; copy plans from "
+            "the AST of */deepcopy_generated.go, matched statement form by statement form — an unknown form is rejected; the templates of "
+            "DeepCopy/DeepCopyMessage/DeepCopyDataType; the hand-written UUID.DeepCopy)", HARNESS,
+            "Cql/DeepCopy.lean: Go values as trees with located pointer/slice/map/interface nodes; new/make return locations never handed out before"],
+        "assumptions": [
+            "Go memory model facts used by the value model: strings and scalars are immutable or copied by value; arrays of scalars are copied by "
+            "assignment; `copy` of a slice of scalars shares nothing; zero-capacity slices own no memory",
+            "no reflection/unsafe aliasing inside the copied types (the translator rejects unsafe.Pointer fields)",
+            "equality is reflect.DeepEqual (erase = the value with locations forgotten); nil vs empty containers are distinguished",
+        ],
+    },
     "C06": {
+        "gens": ["crcfacts"],
         "lean_targets": ["Cql.Props.C06"],
         "trusted_base": COMMON_TRUST + [TRANSLATOR + " (segment/crc constants, shifts, masks, literals: Gen/CrcFacts.lean)", HARNESS,
             "Cql/Segment.lean, Cql/Crc.lean: hand-written code-shaped model of segment/*.go and crc/*.go; "
@@ -34,6 +68,7 @@ PROPS = {
         ],
     },
     "C13": {
+        "gens": ["conversions"],
         "lean_targets": ["Cql.Props.C13"],
         "trusted_base": COMMON_TRUST + [TRANSLATOR + " (every integer helper of datacodec/conversions.go and the type-switch tables of the "
             "bigint/counter, int, smallint, tinyint and varint codecs)", HARNESS,
@@ -47,6 +82,7 @@ PROPS = {
         ],
     },
     "C19": {
+        "gens": ["constants"],
         "lean_targets": ["Cql.Props.C19"],
         "trusted_base": COMMON_TRUST + [TRANSLATOR, HARNESS,
                          "Cql/Spec/Features.lean: hand transcription of the specs' per-version feature lists"],
@@ -58,6 +94,7 @@ PROPS = {
         ],
     },
     "C20": {
+        "gens": ["constants", "accessors"],
         "lean_targets": ["Cql.Props.C20"],
         "trusted_base": COMMON_TRUST + [TRANSLATOR, HARNESS],
         "assumptions": [
@@ -146,6 +183,30 @@ PROPS = {
 }
 
 MANIFEST_TEXT = {
+    "C18": {
+        "text": "Generic Lean theorem: threads that only read what they share end, under EVERY interleaving, with exactly the results of their "
+                "own calls made one after another (induction over schedules). Per run, on data regenerated from the SSA form of the Go source, the "
+                "kernel decides that every function reachable from a codec entry point (frame, raw, segment, message, CQL value codecs, "
+                "compressors, primitives; interface calls resolved to all implementations) writes no package-level variable and no field of a "
+                "shared codec/compressor/singleton, and that package-level variables are written by init only. The stress harness compares "
+                "concurrent with sequential results under the Go race detector.",
+        "design_ref": "DESIGN.md §5 C18",
+        "note": "Partial: absence of data races in the Go memory model is observed (race detector), not proved; soundness rests on the effect "
+                "extraction (trusted) and on third-party code being thread-safe.",
+        "technique": "Lean 4 theorem (interleaving = sequential under read-only sharing) + kernel-decided effect facts regenerated from Go SSA",
+    },
+    "C17": {
+        "text": "Lean meta-theorem over a heap model (trees with located reference nodes, fresh-location allocator): for ANY environment of "
+                "struct types, any shape, any copy plan that covers the shape, and EVERY value of that shape (all fields populated or nil, any "
+                "sizes and nesting), the executed copy equals the original up to locations and every location reachable from it is fresh, "
+                "hence a write through any location of the copy leaves the original unchanged and the reverse. Per run the kernel decides "
+                "that the environment regenerated from the Go source (64 struct types, Message and DataType dispatch, UUID) is covered. "
+                "The harness walks the real DeepCopy results reflectively and compares shared positions with the model's prediction.",
+        "design_ref": "DESIGN.md §5 C17",
+        "note": "Trusted: Lean kernel; the translator's reading of struct declarations and generated copy code (literal statement forms); the "
+                "heap value model. The reflective walk validates the translator and supplies failing inputs.",
+        "technique": "Lean 4 meta-theorem (induction over heap values) + kernel-decided coverage of shapes/plans regenerated from the Go source",
+    },
     "C06": {
         "text": "Lean theorems over a code-shaped model of segment/*.go and crc/*.go: for every payload of at most 131071 bytes, either "
                 "self-contained flag, with or without a payload compressor, decoding the encoded segment (followed by any bytes) returns "
